@@ -33,7 +33,7 @@ def holds(r, src, target):
             return False
     elif kind == "not-idempotent":
         return r.has(b'"idempotent":false')
-    elif kind == "comments-lost-or-reordered" and r.has(b'"comments_eq":true'):
+    elif kind == "comments-lost-or-reordered" and r.has(b'"comments_eq":true') and sig[0] != "doc-comment-moved":
         return False
     d = r.data()
     if kind != "ast-changed" and "tree1" in d:
@@ -190,7 +190,7 @@ class Minimiser:
     """Greedy staged delta debugging; stages are cycled until one full cycle brings no
     progress.  After a success the same stage is restarted (not the whole cycle)."""
 
-    def __init__(self, src, target, max_tests=20000):
+    def __init__(self, src, target, max_tests=4000):
         self.target = target
         self.toks = lex.tokens(src)
         self.src = _render(self.toks)
@@ -205,6 +205,8 @@ class Minimiser:
         self._gen = None
         self._idle_stages = 0  # consecutive stages finished without progress
         self._wave = None
+        self._combo = None
+        self._wave_d = []
         self._pre = [_stage_hoist, _stage_canon]
         self._in_pre = False
         self._pending_advance = False
@@ -239,7 +241,13 @@ class Minimiser:
         if self._phase == "verify":
             return [self.src]
         out = []
+        if self._combo is not None:
+            # several independent reductions held in the last wave: try them all at once
+            self._wave = [self._combo[0]]
+            self._wave_d = [None]
+            return [_render(self._combo[0])]
         self._wave = []
+        self._wave_d = []
         seen = set()
         if self._idle_stages >= len(STAGES):
             self.done = True
@@ -273,10 +281,19 @@ class Minimiser:
                 continue
             seen.add(text)
             self._wave.append(c)
+            self._wave_d.append(d)
             out.append(text)
         if not out:
             self.done = True
         return out
+
+    def _adopt(self, c):
+        self.toks = c
+        self.src = _render(c)
+        self._gen = None
+        self._idle_stages = 0
+        self._pending_advance = False  # progress: run the same stage again
+        self.rounds += 1
 
     def _advance(self):
         self._pending_advance = False
@@ -291,18 +308,32 @@ class Minimiser:
             if not self.verified:
                 self.done = True
             return
-        for c, r in zip(self._wave, results):
-            if holds(r, _render(c), self.target):
-                self.toks = c
-                self.src = _render(c)
-                self._gen = None
-                self._idle_stages = 0
-                self._pending_advance = False  # progress: run the same stage again
-                self.rounds += 1
-                break
-        else:
-            if getattr(self, "_pending_advance", False):
-                self._advance()
+        if self._combo is not None:
+            combo, first = self._combo
+            self._combo = None
+            chosen = combo if holds(results[0], _render(combo), self.target) else first
+            self._adopt(chosen)
+            return
+        good = [(c, d) for (c, d), r in zip(zip(self._wave, self._wave_d), results) if holds(r, _render(c), self.target)]
+        if good:
+            first = good[0][0]
+            # combine reductions that touch disjoint token ranges
+            picked = []
+            for c, d in good:
+                if d is None or d[0] in ("set", "keep", "unwrap"):
+                    continue
+                a, b = d[0], d[1]
+                if all(b <= pa or a >= pb for pa, pb, _ in picked):
+                    picked.append((a, b, d[2]))
+            if len(picked) > 1 and good[0][1] is not None and good[0][1][0] not in ("set", "keep", "unwrap"):
+                toks = self.toks
+                for a, b, repl in sorted(picked, reverse=True):
+                    toks = toks[:a] + list(repl) + toks[b:]
+                self._combo = (toks, first)
+            else:
+                self._adopt(first)
+        elif self._pending_advance:
+            self._advance()
         if self.tests >= self.max_tests:
             self.done = True
             self.budget_exhausted = True
@@ -331,15 +362,26 @@ def minimise_all(items, timeout=20.0):
 
 
 def canonical(toks):
-    """one-line text of the minimal input with identifiers renamed in order of appearance"""
+    """one-line text of the minimal input: identifiers renamed in order of appearance,
+    comment texts abstracted, `↵` where a line break is significant (before `(`, `-`, `|>`)"""
     names = {}
     ups = {}
     out = []
-    for k, t, _ in toks:
+    for k, t, nl in toks:
         if k == "name":
             t = names.setdefault(t, "abcdefghijklmnopqrstuvwxyz"[len(names) % 26])
         elif k == "up" and t not in KEEP_UP:
             t = ups.setdefault(t, "ABCDEFGHIJKLMNOPQRSTUVWXYZ"[len(ups) % 26])
+        elif k == "c2":
+            t = "// c" if re.match(r"// c\d+\s*$", t) else "// …"
+        elif k == "c3":
+            t = "/// doc" if re.match(r"/// doc\d+\s*$", t) else "/// …"
+        elif k == "c4":
+            t = "//// m" if re.match(r"//// m\d+\s*$", t) else "//// …"
+        if nl > 0 and t in lex.NL_SENSITIVE:
+            t = "↵" + t
+        if k == "eof":
+            t = "⏎⏎"
         out.append(t)
     s = " ".join(out)
     s = re.sub(r"\s*([()\[\],.])\s*", r"\1", s)
@@ -347,18 +389,3 @@ def canonical(toks):
     return s
 
 
-# (class name, kinds or None, regex on the canonical minimal source, optional predicate on the fmt text)
-RULES = []
-
-
-def rule(name, kinds, pattern, fmt_pattern=None):
-    RULES.append((name, kinds, re.compile(pattern), re.compile(fmt_pattern) if fmt_pattern else None))
-
-
-def classify(kind, sig, canon, fmt):
-    for name, kinds, pat, fpat in RULES:
-        if kinds and kind not in kinds:
-            continue
-        if pat.search(canon) and (fpat is None or fpat.search(fmt or "")):
-            return name
-    return "unclassified:" + canon[:70]
